@@ -187,6 +187,18 @@ def run(ctx, rep):
     # ---- C11.b -------------------------------------------------------------------------------------
     PR = prog.find1(r"^rustic_core::archiver::parent::Parent::process$")
     clone_from = [bb for bb, t in PR.calls() if "callee" in t and re.search(r"Clone>::clone_from$|::clone_from$", callee(t)) and "content" in (flow.backward_slice(PR, op_place(t["args"][0]))["fields"] if op_place(t["args"][0]) else set())]
+    copied_src = {}
+    for bb in clone_from:
+        copied_src[bb] = flow.expr_of(PR, PR.term(bb)["args"][1])
+    # the same copy written as an assignment: `node.content = p_node.content.clone()` (or `.clone_from` on a temporary)
+    live_ = set(PR.reachable_from(0))
+    for bi, blk in enumerate(PR.blocks):
+        for s_ in blk["s"]:
+            if bi in live_ and s_[0] == "=" and place_has_field(s_[1], "content") and "Node" in str(s_[1]) and s_[2][0] == "use" and s_[2][1][0] in ("c", "m"):
+                e_ = flow.expr_of(PR, s_[2][1], bi)
+                if e_[0] == "call" and re.search(r"Clone>::clone$|::clone$|::to_owned$|::cloned$", e_[1]) and e_[2] and "content" in repr(e_[2][0]):
+                    clone_from.append(bi)
+                    copied_src[bi] = e_[2][0]
     rep.require("C11.b", "content-reuse-site", len(clone_from) == 1, where=PR.loc(), what="Parent::process copies the parent's content into the node at one site")
     if len(clone_from) == 1:
         ok = False
@@ -258,7 +270,6 @@ def run(ctx, rep):
                 rep.check("C11.b", "reuse-guarded/every-path", True, where=where(PR, clone_from[0]), what="every path that copies the parent's content has gone through the loop that tests each chunk id; after a miss the copy is out of reach")
         rep.check("C11.b", "reuse-guarded", ok, where=where(PR, clone_from[0]), what="the parent's content is reused only if every chunk id is in the index (all(has_data) / !any(!has_data))" if ok else "a file's content is taken from the parent WITHOUT checking that all its chunks are still indexed")
         # the chunks tested are the PARENT node's content - the very list that is copied
-        t_cf = PR.term(clone_from[0])
 
         def recv_root(e):
             # strip iterator / reference adaptors along the receiver chain
@@ -269,7 +280,7 @@ def run(ctx, rep):
                     e = e[1]          # the element a loop draws from the iterator
                 else:
                     return e
-        copied = recv_root(flow.expr_of(PR, t_cf["args"][1]))
+        copied = recv_root(copied_src[clone_from[0]])
         oks = any(recv_root(q[2][0]) == copied and copied[0] in ("proj", "path") and "content" in copied[2] for q in guard_calls)
         if loop_sites:
             oks = all(recv_root(flow.expr_of(PR, PR.term(h)["args"][-1], h)) == copied and copied[0] in ("proj", "path") and "content" in copied[2] for h in loop_sites)
